@@ -1,6 +1,6 @@
-(* Catalogue, part 8: with the literal of Table::new repaired (seed = "column_name") compaction
-   always iterates over every column the merged partitions carry: the guarded run never stops at
-   the F3 site. *)
+(* Catalogue, part 8: with the literal of Table::new (code_seed = "column_name", since 647a26b)
+   compaction always iterates over every column the merged partitions carry: the guarded run never
+   stops at the KF3 site. *)
 From Coq Require Import NArith ZArith List Bool Lia.
 From LV Require Import Model.TableSM Model.Catalogue Model.WalSM
      Proofs.TableSM Proofs.WalSMBase Proofs.WalSM Proofs.WalSMLog Proofs.Catalogue
@@ -90,7 +90,7 @@ Section NoKF3.
 
 End NoKF3.
 
-Definition Seeded (c : cfg) (s : db) : Prop := SeededT (c_seed c) (tabs s).
+Definition Seeded (c : cfg) (s : db) : Prop := SeededT code_seed (tabs s).
 
 Lemma seeded_init : forall c, Seeded c (init c).
 Proof.
@@ -109,7 +109,7 @@ Lemma step_seeded : forall c s o s', Seeded c s -> step true c s o = Val s' -> S
 Proof.
   intros c s o s' S. unfold Seeded in *. destruct o as [b bytes|bg orc| |]; cbn [step].
   - unfold ingest. destruct (c_max_wal_bytes c <? wal_size s); [discriminate|].
-    destruct (prepare (c_seed c) b (tabs s) [] []) as [[[l1 created] colrows]| | | |] eqn:Ep; cbn [bind]; try discriminate.
+    destruct (prepare code_seed b (tabs s) [] []) as [[[l1 created] colrows]| | | |] eqn:Ep; cbn [bind]; try discriminate.
     destruct (apply_batch _ l1) as [l2| | | |] eqn:Ea; cbn [bind]; try discriminate.
     intro H. injection H as <-. cbn [tabs]. eapply seededT_apply_batch; [|exact Ea]. eapply seededT_prepare; eauto.
   - destruct (bg && negb (bg_enabled c s)); [discriminate|]. unfold flush, flush_mid.
@@ -125,17 +125,17 @@ Proof.
     eapply seededT_map; [apply freeze_cols|exact S|exact E0].
   - intro H. injection H as <-. exact S.
   - unfold recover.
-    destruct (restore_tables (c_seed c) (tabs s)) as [l0| | | |] eqn:E0; cbn [bind]; try discriminate.
-    destruct (create_if_empty (c_seed c) s_meta_tables l0) as [l1 b1] eqn:E1.
-    destruct (replay (c_seed c) _ None l1) as [l2| | | |] eqn:E2; cbn [bind]; try discriminate.
+    destruct (restore_tables code_seed (tabs s)) as [l0| | | |] eqn:E0; cbn [bind]; try discriminate.
+    destruct (create_if_empty code_seed s_meta_tables l0) as [l1 b1] eqn:E1.
+    destruct (replay code_seed _ None l1) as [l2| | | |] eqn:E2; cbn [bind]; try discriminate.
     intro H. injection H as <-. cbn [tabs]. eapply seededT_replay; [|exact E2].
     eapply seededT_create; [|exact E1]. eapply seededT_restore; eauto.
 Qed.
 
-Lemma flush_not_kf3 : forall c o s, Inv s -> Cat s -> Seeded c s -> c_seed c = s_column_name ->
+Lemma flush_not_kf3 : forall c o s, Inv s -> Cat s -> Seeded c s ->
   flush true c o s <> Known KF3.
 Proof.
-  intros c o s I C S Hseed. unfold Seeded in S. rewrite Hseed in S. unfold flush, flush_mid.
+  intros c o s I C S. unfold Seeded, code_seed in S. unfold flush, flush_mid.
   destruct (freeze_all (tabs s)) as [l0|k| | |] eqn:E0; cbn [bind]; try discriminate.
   - assert (R0 : cat_rel s l0) by (eapply cat_rel_map; [apply freeze_content|apply cat_rel_start; exact C|exact E0]).
     assert (S0 : SeededT s_column_name l0) by (eapply seededT_map; [apply freeze_cols|exact S|exact E0]).
@@ -149,12 +149,12 @@ Proof.
   - unfold freeze_all in E0. destruct (map_tabs_total _ _ _ _ E0) as [[? ?]|?]; discriminate.
 Qed.
 
-Lemma step_not_kf3 : forall c s o, Inv s -> Cat s -> Seeded c s -> c_seed c = s_column_name ->
+Lemma step_not_kf3 : forall c s o, Inv s -> Cat s -> Seeded c s ->
   step true c s o <> Known KF3.
 Proof.
-  intros c s o I C S Hseed. destruct o as [b bytes|bg orc| |]; cbn [step].
+  intros c s o I C S. destruct o as [b bytes|bg orc| |]; cbn [step].
   - unfold ingest. destruct (c_max_wal_bytes c <? wal_size s); [discriminate|].
-    destruct (prepare_shape (c_seed c) b (tabs s) [] []) as [[[[l1 created] colrows] ->]|[st ->]]; cbn [bind]; [|discriminate].
+    destruct (prepare_shape code_seed b (tabs s) [] []) as [[[[l1 created] colrows] ->]|[st ->]]; cbn [bind]; [|discriminate].
     destruct (apply_batch_shape (b ++ meta_tables_batch created ++ colrows) l1) as [[l2 ->]|[st ->]]; cbn [bind]; discriminate.
   - destruct (bg && negb (bg_enabled c s)); [discriminate|]. apply flush_not_kf3; auto.
   - discriminate.
@@ -162,9 +162,9 @@ Proof.
 Qed.
 
 Theorem run_not_kf3 : forall c ops,
-  c_seed c = s_column_name -> Forall wf_op ops -> run true c ops (init c) <> Known KF3.
+  Forall wf_op ops -> run true c ops (init c) <> Known KF3.
 Proof.
-  intros c ops Hseed W.
+  intros c ops W.
   assert (G : forall s, Inv s -> Cat s -> Seeded c s -> run true c ops s <> Known KF3).
   { induction W as [|o ops Wo W IH]; intros s I C S; cbn [run]; [discriminate|].
     destruct (step true c s o) as [s1|k| | |] eqn:E; cbn [bind]; try discriminate.
